@@ -106,6 +106,10 @@ class SizeConstraint(Constraint):
             self.size_max is not None
         ), "Cannot assert the end of a constraint before having initialized it."
 
+        if self.is_obsolete:
+            # abandoned after a reported overrun: the rest of the region has been skipped already
+            return
+
         # finalize self and remove it from constraint list
         self.is_obsolete = True
 
@@ -118,7 +122,12 @@ class SizeConstraint(Constraint):
             raise error
         yield WarningEvent(error=error)
 
-        yield from consume_bytes(self.size_max - self.size_already)
+        # skip the rest of the region; the skipped bytes count for the enclosing regions
+        padding = max(self.size_max - self.size_already, 0)
+        for constraint in all_size_constraints:
+            if constraint is not self and not constraint.is_obsolete:
+                constraint.size_already += padding
+        yield from consume_bytes(padding)
 
     def __repr__(self):
         return f"{type(self).__name__}({self.constraint_path}: {self.size_already}/{self.size_max})"
@@ -129,16 +138,40 @@ class SizeConstraintList(list[SizeConstraint]):
         super().__init__(*args, **kwargs)
 
     def bytes_parsed(self, path, size, anticipate_only=False):
-        # TODO always in order from deepest to highest
+        # constraints are ordered from the outermost region to the innermost one
         for constraint in self.copy():
-            try:
-                yield from constraint.bytes_parsed(
-                    path,
-                    size,
-                    anticipate_only=anticipate_only,
-                )
-            except ConstraintObsoleteError:
+            if constraint.is_obsolete:
                 self.remove(constraint)
+
+        if not anticipate_only:
+            # decide first, count second: find the outermost region this field would cross
+            violated = next(
+                (
+                    c
+                    for c in self
+                    if c.size_max is not None and c.size_already + size > c.size_max
+                ),
+                None,
+            )
+            if violated is not None:
+                index = self.index(violated)
+                skipped = max(violated.size_max - violated.size_already, 0)
+                # the rest of the violated region is skipped: it counts for the enclosing regions ...
+                for outer in self[:index]:
+                    outer.size_already += skipped
+                # ... and the regions opened inside it are abandoned with it
+                for inner in self[index + 1 :]:
+                    inner.is_obsolete = True
+                del self[index + 1 :]
+                yield from violated.bytes_parsed(path, size)
+                return
+
+        for constraint in self.copy():
+            yield from constraint.bytes_parsed(
+                path,
+                size,
+                anticipate_only=anticipate_only,
+            )
 
     def assert_done(self):
         # if not all constraints are obsolete by now, this is a bug
